@@ -233,12 +233,14 @@ def hard_item_with_tables(m, tl, mutate, pts, labels):
 
 def all_items():
     items = []
-    maxo = tier(16, 64)
+    maxo = 64
     for m in modem_specs(max_order=maxo):
+        if TIER == "quick" and (m["order"] or 2) > 16 and not m["name"].startswith("QAM64(gray=True,normalize=True"):
+            continue
         if m["memory"] in ("dpsk", "pi4") or m["name"] in ("Identity", "BPSK(real)"):
             continue   # differential / alternating schemes: decision variable needs atan2 or per-phase tables (outside, DESIGN §6)
         stretch = (m["order"] or 2) > 16
-        items.append(dict(type="hard", modem=m, config=m["name"] + " hard", stretch=stretch))
+        items.append(dict(type="hard", modem=m, config=m["name"] + " hard", stretch=stretch and not m["name"].startswith("QAM64(gray=True,normalize=True")))
         items.append(dict(type="soft", modem=m, config=m["name"] + " soft", stretch=stretch))
     items.append(dict(selftest=True, config="selftest"))
     return items
